@@ -196,7 +196,7 @@ def rule_response(repo, chk):
     for n in bodyw:
         c = [c for c, _r, e in pat.fire_calls(n.ast) if pat.event_ctor_name(e) == 'write'][0]
         bv = src(c.args[0].args[1])
-        framers = [m for m in g.nodes if m.kind == 'stmt' and isinstance(m.ast, ast.Assign) and src(m.ast.targets[0]) == bv and "b''.join(buf)" in src(m.ast.value)]
+        framers = [m for m in g.nodes if m.kind == 'stmt' and isinstance(m.ast, ast.Assign) and src(m.ast.targets[0]) == bv and ("b''.join(buf)" in src(m.ast.value) or _is_chunk_frame(f, m.ast.value, bv))]
         p = Q.reachable_without(g, n, avoid_node=lambda m: m in framers, avoid_edge=chunk_T) if False else None
         # every path to the body write on which the response is chunked passes the framing
         q = Q.reachable_without(g, n, avoid_node=lambda m: m in framers, avoid_edge=chunk_F)
@@ -208,7 +208,7 @@ def rule_response(repo, chk):
         for fr in framers:
             qq = pat.guarded_by(g, fr, chunk_T)
             chk.ob('c', f.ref, 'framing is applied only under chunked encoding', qq is None, loc(f, fr.ast), discr='framing-only-chunked')
-            sz = _frame_size_ok(g, fr, bv)
+            sz = _frame_size_ok(g, fr, bv) or _is_chunk_frame(f, fr.ast.value, bv)
             chk.ob('c', f.ref, 'the chunk header is the hexadecimal length of the chunk, followed by CRLF, data, CRLF', sz, loc(f, fr.ast), discr='frame-shape')
     chk.ob('c', f.ref, 'the last-chunk marker is written from exactly one site of _on_response', len(term) == 1, loc(f, f.node), discr='terminator-once')
     # every non-HEAD, non-stream exit under chunked passes the terminator
@@ -239,10 +239,8 @@ def _frame_size_ok(g, fr, bv):
 
 
 def _producer_rule(chk, f, g, streams):
-    """Each `fire(stream(res, X))`: every definition of X reaching it is None (exhausted) or passed the skip-empty loop."""
-    for s in streams:
-        c = pat.fires(s.ast, 'stream')[0]
-        dv = src(c.args[0].args[1])
+    """Each `fire(stream(res, X))`: every definition of X reaching it is None (exhausted) or passed the skip-empty loop (plain copies `X = Y` are followed)."""
+    def check(dv, s, depth=0):
         defs = Q.reaching_defs(g, s, dv)
         ok = bool(defs)
         detail = ''
@@ -254,8 +252,13 @@ def _producer_rule(chk, f, g, streams):
             v = d.ast.value
             if pat.is_const(v, None):
                 continue
+            if isinstance(v, ast.Name) and depth < 3:
+                ok2, det2 = check(v.id, d, depth + 1)
+                if not ok2:
+                    ok, detail = False, det2
+                continue
             if src(v).startswith('next('):
-                # from this definition, the fire is reachable only through the exit (false edge) of a `while not X` loop
+                # from this definition, the use is reachable only through the exit (false edge) of a `while not X` loop
                 q = Q.reachable_without(g, s, start=d, avoid_edge=pat.test_edge(lambda tt, pol: pol == 'T' and src(tt) == dv),
                                         avoid_node=lambda n: n is not d and dv in Q.node_defs(n))
                 if q is not None:
@@ -264,6 +267,10 @@ def _producer_rule(chk, f, g, streams):
                 continue
             ok = False
             detail = f'`{dv}` defined by {d.text[:40]}'
+        return ok, detail
+    for s in streams:
+        c = pat.fires(s.ast, 'stream')[0]
+        ok, detail = check(src(c.args[0].args[1]), s)
         chk.ob('c', f.ref, 'a chunk handed to the stream handler is None (end of body) or has been tested non-empty', ok, loc(f, s.ast), detail=detail,
                discr='stream-producer-non-empty')
 
@@ -275,7 +282,7 @@ def _is_chunk_frame(func, v, dv):
     for seq in pat.deref(func, v.args[0]):
         if isinstance(seq, (ast.List, ast.Tuple)) and len(seq.elts) == 4:
             size = ' '.join(src(x) for x in pat.deref(func, seq.elts[0]))
-            if 'hex(len(' + dv in size and src(seq.elts[1]) == "b'\\r\\n'" and src(seq.elts[2]) == dv and src(seq.elts[3]) == "b'\\r\\n'":
+            if size.startswith(f'hex(len({dv}))[2:]') and src(seq.elts[1]) == "b'\\r\\n'" and src(seq.elts[2]) == dv and src(seq.elts[3]) == "b'\\r\\n'":
                 return True
     return False
 
